@@ -74,6 +74,10 @@ type pstate struct {
 	checked map[string]bool // nil checks already made on this path
 	held    map[string]bool // monitor locks held (by receiver term string)
 	ghost   map[string]*smt.Term
+	owned   map[int]*ownedCell // states of owned-structure handles (memory model M2)
+	epoch   int                // bumped whenever an owned structure is modified
+	heapOwned map[string]*ownedRef
+	ufSeen  map[*smt.Term]int // applications of recursive specification functions whose definition is already among the hypotheses
 }
 
 type loopCtx struct {
@@ -96,6 +100,25 @@ func (p *pstate) fork() *pstate {
 		n.ghost[k] = v
 	}
 	n.defers = append([]deferred{}, p.defers...)
+	n.epoch = p.epoch
+	if p.owned != nil {
+		n.owned = make(map[int]*ownedCell, len(p.owned))
+		for k, v := range p.owned {
+			n.owned[k] = v.clone()
+		}
+	}
+	if p.ufSeen != nil {
+		n.ufSeen = make(map[*smt.Term]int, len(p.ufSeen))
+		for k, v := range p.ufSeen {
+			n.ufSeen[k] = v
+		}
+	}
+	if p.heapOwned != nil {
+		n.heapOwned = make(map[string]*ownedRef, len(p.heapOwned))
+		for k, v := range p.heapOwned {
+			n.heapOwned[k] = v
+		}
+	}
 	// the forking path continues in a fresh child environment too, so that its later writes
 	// (loop-header phis at a back edge) are not visible to the sibling
 	p.vals = &valEnv{m: map[ssa.Value]Val{}, parent: p.vals}
@@ -121,6 +144,14 @@ type exec struct {
 	monitor  *monitorInfo
 	isInit   bool
 	behScope map[string]*scope
+	ownedN, ownedViol int
+	ownedParams []ownedParam
+}
+
+type ownedParam struct {
+	name string
+	ref  *ownedRef
+	mode string // "", "assigns", "consumes", "releases"
 }
 
 // VerifyFunc generates the proof obligations of one function under contract.
@@ -185,6 +216,9 @@ func (x *exec) run() {
 		v := x.freshInput(st, names[i], prm.Type())
 		st.vals.m[prm] = v
 		st.vars[prm.Name()] = tval{v, prm.Type()}
+		if r, ok := v.(*ownedRef); ok {
+			x.ownedParams = append(x.ownedParams, ownedParam{name: names[i], ref: r, mode: x.c.C.OwnedMode(names[i])})
+		}
 		ev := x.evalAt(st, nil)
 		x.entry.vars[names[i]] = ev.FromVal(v, prm.Type())
 		if prm.Name() != names[i] {
@@ -219,6 +253,7 @@ func (x *exec) run() {
 	}
 	x.setupMonitor(st)
 	x.old = st.heapSnapshot()
+	x.assumeAxioms(st)
 	// preconditions
 	for i, r := range x.c.C.Requires {
 		ev := x.evalAt(st, x.entry)
@@ -293,6 +328,9 @@ func (x *exec) freshInput(st *pstate, name string, t types.Type) Val {
 // assumeAllocated: references held by an incoming value are older than anything allocated later.
 func (x *exec) assumeAllocated(st *pstate, v *smt.Term, t types.Type) {
 	next := x.env.Next(st.heap)
+	if x.p.T.OwnedOf(t) != nil {
+		return
+	}
 	switch t.Underlying().(type) {
 	case *types.Pointer, *types.Map, *types.Chan:
 		st.assume(smt.ILt(v, next), "allocated")
@@ -304,6 +342,9 @@ func (x *exec) assumeAllocated(st *pstate, v *smt.Term, t types.Type) {
 // wrap turns a term of pointer type into a Loc.
 func (x *exec) wrap(t *smt.Term, ty types.Type) Val {
 	if pt, ok := ty.Underlying().(*types.Pointer); ok {
+		if x.p.T.OwnedOf(ty) != nil {
+			return x.newOwned(t, ty)
+		}
 		return &Loc{Kind: LRoot, Ref: t, Root: pt.Elem()}
 	}
 	return t
@@ -320,7 +361,15 @@ func (x *exec) evalAt(st *pstate, sc *scope) *Eval {
 	if pkg == nil && x.fn.Pkg != nil {
 		pkg = x.fn.Pkg.Pkg
 	}
-	return &Eval{P: x.p, Env: x.env, Pkg: pkg, Heap: st.heap, Old: x.old, Scope: sc, TParams: x.tparams, Facts: func(t *smt.Term) { st.assume(t, "type invariant of a value read by a specification") }}
+	return &Eval{P: x.p, Env: x.env, Pkg: pkg, Heap: st.heap, Old: x.old, Scope: sc, TParams: x.tparams, Facts: func(t *smt.Term) { st.assume(t, "type invariant of a value read by a specification") },
+		Owned: func(r *ownedRef) *smt.Term { return x.ownedTerm(st, r, x.fn.Pos()) }, ufSeen: x.ufSeenOf(st)}
+}
+
+func (x *exec) ufSeenOf(st *pstate) map[*smt.Term]int {
+	if st.ufSeen == nil {
+		st.ufSeen = map[*smt.Term]int{}
+	}
+	return st.ufSeen
 }
 
 // ---- loops
@@ -499,6 +548,10 @@ func (x *exec) callWrites(w *writeSet, cc *ssa.CallCommon) {
 // assignHeaps over-approximates the heaps named by an assigns entry by typing it.
 func (x *exec) assignHeaps(w *writeSet, c *Contract, callee *ssa.Function, a spec.Expr) {
 	switch a := a.(type) {
+	case *spec.Ident:
+		if t := x.typeOfSpec(c, callee, a); t != nil && x.p.T.OwnedOf(t) != nil {
+			return // an owned structure modified in place: no heap is involved
+		}
 	case *spec.Unary:
 		if a.Op == "*" {
 			if t := x.typeOfSpec(c, callee, a.X); t != nil {
